@@ -51,6 +51,14 @@ def cases(tier, seed):
                         for model in MODELS:
                             out.append({"kind": "score", "shape": list(shape), "pair": pair, "mask": mask, "cutoff": cutoff,
                                         "tilt": tilt, "model": model, "seed": seed})
+    # call histories on ONE model object used for molecules of different orientations (what a loader does): a score, an
+    # alignment or a landscape must not depend on which calls the model served before
+    for model in MODELS:
+        for rot in (False, True):
+            for ntemp in (1, 2):
+                if tier == "quick" and (model == "FSC" or (rot and ntemp == 2)):
+                    continue
+                out.append({"kind": "history", "model": model, "rot": rot, "ntemp": ntemp, "depth": 2 if tier == "quick" else 3})
     return out + _landscape_cases(tier)
 
 
@@ -168,9 +176,60 @@ def _get_model(shape, mname, maskk, cutoff, tilt):
     return _CACHE[key]
 
 
+def _run_history(case):
+    from vf import history
+
+    shape = (7, 8, 6)
+    mname = case["model"]
+    rng = np.random.default_rng(11)
+    t0 = (data.particle_box(shape, blobs=_blobs(shape)) + 0.2).astype(np.float32)
+    t1 = (data.particle_box(shape, blobs=_blobs(shape)[::-1]) + 0.1).astype(np.float32)
+    img = (1.5 * data.particle_box(shape, shift=(0.5, -1.0, 0.0), blobs=_blobs(shape)) + 0.05 * rng.standard_normal(shape) + 0.3).astype(np.float32)
+    quats = {"q1": data.scipy_rot("gen0").as_quat().astype(np.float32), "q2": data.scipy_rot("gen1").as_quat().astype(np.float32),
+             "qI": np.array([0, 0, 0, 1], dtype=np.float32)}
+    pos = np.zeros(3, dtype=np.float32)
+    kw = {"tilt": (-60.0, 60.0)}
+    if case["rot"]:
+        kw["rotations"] = ((0, 0), (0, 0), (30, 30))
+
+    def make():
+        return _cls(mname)(t0 if case["ntemp"] == 1 else [t0, t1], **kw)
+
+    ops = []
+    for qn, q in quats.items():
+        ops.append((f"score({qn})", lambda m, q=q: np.asarray(m.score(img, q, pos))))
+        ops.append((f"align({qn})", lambda m, q=q: (lambda r: [int(r.label), np.asarray(r.shift), np.asarray(r.quat), float(r.score)])(m.align(img, (1.5, 1.5, 1.5), q, pos))))
+        ops.append((f"landscape({qn})", lambda m, q=q: np.asarray(m.landscape(img, (1.0, 1.0, 1.0), q, pos))))
+        if qn != "qI":
+            ops.append((f"landscape({qn},upsample=2)", lambda m, q=q: np.asarray(m.landscape(img, (1.0, 1.0, 1.0), q, pos, upsample=2))))
+            if mname == "ZNCC" and case["ntemp"] == 1 and not case["rot"]:
+                ops.append((f"masked_difference({qn})", lambda m, q=q: np.asarray(m.masked_difference(img, q))))
+            ops.append((f"wedge({qn})", lambda m, q=q: np.asarray(m.get_missing_wedge_mask(q))))
+    res = history.explore(make, ops, case["depth"], atol=2e-5, rtol=1e-4)
+    if res["raises_alone"]:
+        raise RuntimeError(f"harness: operations {res['raises_alone']} raise on a fresh model")
+    viol, seen = [], set()
+    for hist, why in res["failures"]:
+        sg = f"{ID}|{mname}|history|{hist[-1].split('(')[0]}-after-{hist[-2].split('(')[0]}"
+        if sg not in seen:
+            seen.add(sg)
+            viol.append((sg, f"{mname} model (rotations {case['rot']}, {case['ntemp']} template(s), tilt +-60): {hist[-1]} after {hist[:-1]} differs from the same call on a fresh model: {why}"))
+    for hist, err in res["errors"]:
+        sg = f"{ID}|{mname}|history|raised"
+        if sg not in seen:
+            seen.add(sg)
+            viol.append((sg, f"{hist} raised {err}"))
+    if res["nondeterministic"]:
+        viol.append((f"{ID}|{mname}|history|not-reproducible", f"{res['nondeterministic']} differ between two fresh models"))
+    return {"nontrivial": True, "outcome": f"history|{mname}|{'viol' if viol else 'ok'}", "viol": viol,
+            "metrics": {"history_sequences": res["sequences"], "history_calls": res["calls"]}}
+
+
 def run_case(case):
     if case["kind"] == "landscape":
         return _run_landscape(case)
+    if case["kind"] == "history":
+        return _run_history(case)
     shape = tuple(case["shape"])
     mname = case["model"]
     model, t, m, quat = _get_model(shape, mname, case["mask"], case["cutoff"], case["tilt"])
